@@ -24,7 +24,7 @@ ASSUMPTIONS = [
     "an adversarial stream may be accepted only when it is a legal protocol run (first answer < 254 -> [a]; 254 -> []; 255 then strictly ascending values < 254 then 254)",
     "send-twice is the driver's job: the model executes a send-twice command once",
 ]
-BOUNDS = {"quick": "streams len<=6 (137 256); SetGroups pairs over 2^6-subsets of low and high byte (3 x 4096 x 4 destinations)",
+BOUNDS = {"quick": "streams len<=6 (137 256); SetGroups pairs over 2^6-subsets of low and high byte (3 x 4096 x 4 destinations); all 64 short addresses x {object, int} x 16 group selectors on 8 pairs + faults",
           "thorough": "streams len<=7 (960 799); SetGroups pairs over 2^8-subsets (3 x 65 536 x 4 destinations)"}
 
 ALPHA = ["none", "err", 0, 1, 6, 254, 255]
@@ -47,6 +47,8 @@ def shards(tier):
             for p in range(parts):
                 out.append(("setgroups", mode, dest, nb, p, parts))
     out.append(("setgroups_faults",))
+    for a0 in range(0, 64, 8):
+        out.append(("addr_sweep", a0, a0 + 8))
     return out
 
 
@@ -130,17 +132,17 @@ def check_stream(res, stream):
     return "ok:" + str(val)
 
 
-def check_dt_list(res, types):
+def check_dt_list(res, types, sa=3, as_int=False):
     from dali.sequences import QueryDeviceTypes
     from dali.address import GearShort
-    unit = G.Gear(short=3, devicetypes=types)
-    other = G.Gear(short=4, devicetypes=[2, 3])
+    unit = G.Gear(short=sa, devicetypes=types)
+    other = G.Gear(short=(sa + 1) % 64, devicetypes=[2, 3])
     bus = G.Bus([unit, other])
-    kind, val, n = G.run_sequence(QueryDeviceTypes(GearShort(3)), bus, CAP)
+    kind, val, n = G.run_sequence(QueryDeviceTypes(sa if as_int else GearShort(sa)), bus, CAP)
     res["transitions"] += n
     if kind != "return" or val != sorted(types):
-        add_violation(res, "C08:QueryDeviceTypes:conforming-unit", f"unit with device types {types}: {kind} {val!r}",
-                      {"t": "dtlist", "types": list(types)})
+        add_violation(res, "C08:QueryDeviceTypes:conforming-unit", f"unit {sa} (int form: {as_int}) with device types {types}: {kind} {val!r}",
+                      {"t": "dtlist", "types": list(types), "sa": sa, "as_int": as_int})
     return kind
 
 
@@ -148,22 +150,22 @@ def groups_of(mask):
     return {i for i in range(16) if mask >> i & 1}
 
 
-def check_qgroups(res, mask, fault=None):
+def check_qgroups(res, mask, fault=None, sa=7, as_int=False):
     from dali.sequences import QueryGroups
     from dali.address import GearShort
     from dali.exceptions import DALISequenceError
     from dali import frame as F
-    unit = G.Gear(short=7, groups=groups_of(mask))
-    bus = G.Bus([unit, G.Gear(short=8, groups={0, 15})])
+    unit = G.Gear(short=sa, groups=groups_of(mask))
+    bus = G.Bus([unit, G.Gear(short=(sa + 1) % 64, groups={0, 15})])
     fl = None
     if fault:
         def fl(i, cmd, fr):
             if i == fault[0]:
                 return None if fault[1] == "none" else F.BackwardFrameError(fr.as_integer if fr else 0)
             return fr
-    kind, val, n = G.run_sequence(QueryGroups(GearShort(7)), bus, CAP, fl)
+    kind, val, n = G.run_sequence(QueryGroups(sa if as_int else GearShort(sa)), bus, CAP, fl)
     res["transitions"] += n
-    case = {"t": "qgroups", "mask": mask, "fault": fault}
+    case = {"t": "qgroups", "mask": mask, "fault": fault, "sa": sa, "as_int": as_int}
     if fault:
         if kind != "raise" or not isinstance(val, DALISequenceError):
             add_violation(res, "C08:QueryGroups:fault-not-reported", f"groups {mask:#06x} fault {fault}: {kind} {val!r}", case)
@@ -171,24 +173,23 @@ def check_qgroups(res, mask, fault=None):
         add_violation(res, "C08:QueryGroups:wrong-set", f"unit in groups {sorted(groups_of(mask))}: {kind} {val!r}", case)
 
 
-def check_setgroups(res, dest, emask, rmask, fault=None):
+def check_setgroups(res, dest, emask, rmask, fault=None, sa=5, GSEL=3):
     from dali.sequences import SetGroups
     from dali.address import GearShort, GearGroup, GearBroadcast
     from dali.exceptions import DALISequenceError
     from dali import frame as F
     existing, requested = groups_of(emask), groups_of(rmask)
-    case = {"t": "setgroups", "dest": dest, "e": emask, "r": rmask, "fault": fault}
-    GSEL = 3
+    case = {"t": "setgroups", "dest": dest, "e": emask, "r": rmask, "fault": fault, "sa": sa, "gsel": GSEL}
     if dest in ("short", "int"):
-        target = [G.Gear(short=5, groups=existing)]
-        others = [G.Gear(short=6, groups={1, 9})]
-        addr = GearShort(5) if dest == "short" else 5
+        target = [G.Gear(short=sa, groups=existing)]
+        others = [G.Gear(short=(sa + 1) % 64, groups={1, 9})]
+        addr = GearShort(sa) if dest == "short" else sa
     elif dest == "group":
-        target = [G.Gear(short=5, groups=existing | {GSEL}), G.Gear(short=9, groups={GSEL, 15})]
-        others = [G.Gear(short=6, groups={1, 9} - {GSEL})]
+        target = [G.Gear(short=sa, groups=existing | {GSEL}), G.Gear(short=(sa + 4) % 64, groups={GSEL, 15} | ({14} if GSEL == 15 else set()))]
+        others = [G.Gear(short=(sa + 1) % 64, groups={1, 9} - {GSEL})]
         addr = GearGroup(GSEL)
     else:
-        target = [G.Gear(short=5, groups=existing), G.Gear(short=None, groups={0, 7, 8})]
+        target = [G.Gear(short=sa, groups=existing), G.Gear(short=None, groups={0, 7, 8})]
         others = []
         addr = GearBroadcast()
     bus = G.Bus(target + others)
@@ -203,7 +204,7 @@ def check_setgroups(res, dest, emask, rmask, fault=None):
     res["transitions"] += n
     if fault:
         if kind != "raise" or not isinstance(val, DALISequenceError):
-            add_violation(res, f"C08:SetGroups:fault-not-reported:{dest}", f"{case}: {kind} {val!r}", case)
+            add_violation(res, f"C08:SetGroups:fault-not-reported:{dest}", f"{case}: {kind} {val!r} after {n} commands", case)
         elif target[0].groups != existing:
             add_violation(res, f"C08:SetGroups:changed-despite-fault:{dest}", f"{case}: membership changed to {sorted(target[0].groups)}", case)
         return
@@ -308,6 +309,37 @@ def run_shard(shard):
                         res["states"] += 1
                         res["distinct"].add(("setgroups-fault", dest, pos, f))
         sample(res, {"setgroups_faults": "silence / framing error on either group query"})
+    elif k == "addr_sweep":
+        # every short address in both spellings (address object / plain integer) and every group selector: the
+        # sequences must not depend on WHICH unit is addressed (boundary addresses 0 and 63 included)
+        pairs = ((0, 0xFFFF), (0xFFFF, 0), (0x0206, 0x020C), (0x8001, 0x8001), (0, 0), (0x00FF, 0xFF00), (0x5555, 0xAAAA), (1, 0x8000))
+        for sa in range(shard[1], shard[2]):
+            for as_int in (False, True):
+                for types in ([], [6], [4, 6, 8], [0], [1, 2, 3, 4, 5]):
+                    check_dt_list(res, types, sa, as_int)
+                for mask in (0, 0xFFFF, 0xA5C3, 0x0001, 0x8000):
+                    check_qgroups(res, mask, None, sa, as_int)
+                for pos in (0, 1):
+                    for f in ("none", "err"):
+                        check_qgroups(res, 0xA5C3, (pos, f), sa, as_int)
+                dest = "int" if as_int else "short"
+                for e, r in pairs:
+                    check_setgroups(res, dest, e, r, None, sa)
+                    res["evaluations"] += 1
+                for pos in (0, 1):
+                    for f in ("none", "err"):
+                        check_setgroups(res, dest, 0x00F0, 0x0F00, (pos, f), sa)
+                res["evaluations"] += 18
+            for gsel in range(16):
+                for e, r in pairs:
+                    check_setgroups(res, "group", e, r, None, sa, gsel)
+                    res["evaluations"] += 1
+            for e, r in pairs:
+                check_setgroups(res, "broadcast", e, r, None, sa)
+                res["evaluations"] += 1
+        res["states"] += res["evaluations"]
+        res["distinct"].add(("addr_sweep", shard[1]))
+        sample(res, {"address_sweep": [shard[1], shard[2] - 1], "forms": ["GearShort", "int"], "group_selectors": 16})
     return res
 
 
@@ -319,9 +351,10 @@ def replay(case):
         r = check_stream(res, s)
         print("   outcome:", r, " reference:", ref_stream_outcome(s))
     elif t == "dtlist":
-        check_dt_list(res, case["types"])
+        check_dt_list(res, case["types"], case.get("sa", 3), case.get("as_int", False))
     elif t == "qgroups":
-        check_qgroups(res, case["mask"], tuple(case["fault"]) if case["fault"] else None)
+        check_qgroups(res, case["mask"], tuple(case["fault"]) if case["fault"] else None, case.get("sa", 7), case.get("as_int", False))
     else:
-        check_setgroups(res, case["dest"], case["e"], case["r"], tuple(case["fault"]) if case["fault"] else None)
+        check_setgroups(res, case["dest"], case["e"], case["r"], tuple(case["fault"]) if case["fault"] else None,
+                        case.get("sa", 5), case.get("gsel", 3))
     return res["violations"]
